@@ -260,6 +260,9 @@ class InternalCompiler(Compiler):
             else:
                 d = self.compile_expr(qc, e, dest=d)
 
+            # 2.6 d holds a partial result: it doesn't hold the last argument anymore
+            self.expqmap.remove([d])
+
         self.expqmap[expr] = d
         return d
 
